@@ -70,6 +70,48 @@ pub fn run_from(o: &Opts, vary_root: bool) {
     }
 }
 
+/// found missing by seed C03g: a contract that is its own admin migrates itself in a sub-message; the
+/// new code's migrate entry point fails, the migration is rolled back, and the reply (reply_on Error /
+/// Always) must be handled by the code on record — the old one — exactly once
+fn reply_after_rolled_back_self_migration() {
+    use crate::sc::Script;
+    use cosmwasm_std::{ReplyOn, WasmMsg};
+    let mut app = cw_multi_test::App::default();
+    let user = addr("user");
+    let code1 = app.store_code(sc::contract());
+    let code2 = app.store_code(sc::contract_v2());
+    let k_ = app.instantiate_contract(code1, user.clone(), &Script::new(), &[], "self-admin", Some(user.to_string())).unwrap();
+    app.execute(user.clone(), WasmMsg::UpdateAdmin { contract_addr: k_.to_string(), admin: k_.to_string() }.into()).unwrap();
+    let mode = [ReplyOn::Error, ReplyOn::Always][choose(2)].clone();
+    let script = Script::new().sub(
+        WasmMsg::Migrate { contract_addr: k_.to_string(), new_code_id: code2, msg: Script::new().fail("refused").bin() },
+        mode,
+        7,
+        Some(Script::new().write("handled", "1")),
+    );
+    sc::trace_clear();
+    let r = catch(|| app.execute_contract(user.clone(), k_.clone(), &script, &[]));
+    match r {
+        Err(p) => {
+            failure("no_panic", "panic", p);
+            return;
+        }
+        Ok(Err(e)) => {
+            check_native("caught_failure_is_absorbed", false, || format!("{:#}", e));
+            return;
+        }
+        Ok(Ok(_)) => {}
+    }
+    let trace = sc::trace_take();
+    let entries: Vec<&str> = trace.iter().map(|e| e.entry).collect();
+    check_native("reply_invoked_exactly_when_specified_and_in_order", entries == vec!["execute", "migrate", "reply"], || format!("{:?}", entries));
+    let cd = app.contract_data(&k_).unwrap();
+    check_native("rolled_back_migration_leaves_the_code_id", cd.code_id == code1, || format!("{:?}", cd));
+    witness("some_reply");
+    witness("some_reply_err");
+    witness("some_reply_ok");
+}
+
 pub fn scenarios(tier: &str) -> Vec<Scenario> {
     let mut v = vec![];
     let must = ["some_reply", "some_reply_ok", "some_reply_err"];
@@ -80,6 +122,7 @@ pub fn scenarios(tier: &str) -> Vec<Scenario> {
     v.push(Scenario::new("chains_of_three_contracts_output_varied", &must, || {
         run(&Opts { max_depth: 3, max_nodes: 3, max_children: 1, vary_output: true, vary_ids: false, reply_subs: false, inst_leaves: false })
     }));
+    v.push(Scenario::new("reply_after_a_rolled_back_self_migration", &must, reply_after_rolled_back_self_migration));
     v.push(Scenario::new("trees_depth2_nodes2_root_dispatched_by_sudo_or_migrate", &must, || {
         run_from(&Opts { max_depth: 2, max_nodes: 2, max_children: 1, vary_output: true, vary_ids: true, reply_subs: false, inst_leaves: false }, true)
     }));
